@@ -342,8 +342,10 @@ func checkC20(c CaseC20, info *Info) *Failure {
 		if m, e := x2jw.XmlBufferToMap(bytes.NewBuffer(append([]byte(nil), doc...)), recast); e != nil || !valEqual(m, map[string]interface{}(cm)) {
 			return mism("x2j-wrapper.XmlBufferToMap", m, cm)
 		}
-		sj, serr := cm.Json(true) // the reader forms marshal with the standard (HTML-safe) encoder
-		if s, e := x2jw.ToJson(bytes.NewReader(doc), recast); !eqErr(e, serr) || (e == nil && s != string(sj)) {
+		// the reader forms take no safe-encoding flag: the tree marshals with the standard (HTML-safe) encoder, the
+		// sibling DocToJson with Map.Json(); both are "decode-then-encode with the same flags", either text is accepted
+		sj, serr := cm.Json(true)
+		if s, e := x2jw.ToJson(bytes.NewReader(doc), recast); !eqErr(e, serr) || (e == nil && s != string(sj) && s != string(wj)) {
 			return mism("x2j-wrapper.ToJson", s, string(sj))
 		}
 	}
@@ -468,7 +470,7 @@ func checkC20(c CaseC20, info *Info) *Failure {
 			return mism("x2j-wrapper.DocToJsonIndent", s, string(wji))
 		}
 		smi, smerr := json.MarshalIndent(map[string]interface{}(cm), "", "  ")
-		if s, e := x2jw.ToJsonIndent(bytes.NewReader(doc), recast); !eqErr(e, smerr) || (e == nil && s != string(smi)) {
+		if s, e := x2jw.ToJsonIndent(bytes.NewReader(doc), recast); !eqErr(e, smerr) || (e == nil && s != string(smi) && s != string(wji)) {
 			return mism("x2j-wrapper.ToJsonIndent", s, string(smi))
 		}
 		wj, wjerr2 := cm.Json()
@@ -663,6 +665,7 @@ func checkC20bulk(c CaseC20, doc []byte, mism func(string, interface{}, interfac
 		}
 		return out
 	}
+	jsonSafe := true // spelling of the JSON messages expected from the AsJson form: no flag is passed, both spellings are compositions of core calls
 	run := func(asJSON, core, hideByteReader bool) ([]string, []string, error) {
 		var r io.Reader = bytes.NewReader(data)
 		if hideByteReader {
@@ -677,7 +680,7 @@ func checkC20bulk(c CaseC20, doc []byte, mism func(string, interface{}, interfac
 			herr = mxj.HandleXmlReader(r, func(m mxj.Map) bool {
 				n++
 				if asJSON {
-					j, _ := m.Json(true)
+					j, _ := m.Json(jsonSafe)
 					seen = append(seen, string(j))
 				} else {
 					seen = append(seen, canon(map[string]interface{}(m)))
@@ -695,32 +698,42 @@ func checkC20bulk(c CaseC20, doc []byte, mism func(string, interface{}, interfac
 	for _, asJSON := range []bool{false, true} {
 		for _, hide := range []bool{true, false} {
 			// the core handler has no cast argument: the wrapper's recast flag is compared through the same decoding of each message
-			wantSeen, wantRest, wantErr := run(asJSON, true, hide)
-			if c.Recast {
-				// recompute what the core loop yields with the cast flag
-				var r io.Reader = bytes.NewReader(data)
-				if hide {
-					r = plainReader{r}
+			wantOf := func() ([]string, []string, error) {
+				wantSeen, wantRest, wantErr := run(asJSON, true, hide)
+				if c.Recast {
+					// recompute what the core loop yields with the cast flag
+					var r io.Reader = bytes.NewReader(data)
+					if hide {
+						r = plainReader{r}
+					}
+					wantSeen = nil
+					for n := 1; ; n++ {
+						m, err := mxj.NewMapXmlReader(r, true)
+						if err != nil {
+							break
+						}
+						if asJSON {
+							j, _ := m.Json(jsonSafe)
+							wantSeen = append(wantSeen, string(j))
+						} else {
+							wantSeen = append(wantSeen, canon(map[string]interface{}(m)))
+						}
+						if n == c.Bulk {
+							break
+						}
+					}
+					wantRest = rest(r)
 				}
-				wantSeen = nil
-				for n := 1; ; n++ {
-					m, err := mxj.NewMapXmlReader(r, true)
-					if err != nil {
-						break
-					}
-					if asJSON {
-						j, _ := m.Json(true)
-						wantSeen = append(wantSeen, string(j))
-					} else {
-						wantSeen = append(wantSeen, canon(map[string]interface{}(m)))
-					}
-					if n == c.Bulk {
-						break
-					}
-				}
-				wantRest = rest(r)
+				return wantSeen, wantRest, wantErr
 			}
+			jsonSafe = true
+			wantSeen, wantRest, wantErr := wantOf()
 			gotSeen, gotRest, gotErr := run(asJSON, false, hide)
+			if asJSON && !reflect.DeepEqual(gotSeen, wantSeen) {
+				jsonSafe = false
+				wantSeen, wantRest, wantErr = wantOf()
+				jsonSafe = true
+			}
 			name := fmt.Sprintf("x2j-wrapper.XmlMsgsFromReader(asJson=%v, io.ByteReader hidden=%v, handler stops at message %d)", asJSON, hide, c.Bulk)
 			if !reflect.DeepEqual(gotSeen, wantSeen) || (gotErr == nil) != (wantErr == nil) {
 				return mism(name+": messages handed to the handler", fmt.Sprint(gotSeen, gotErr), fmt.Sprint(wantSeen, wantErr))
